@@ -178,7 +178,14 @@ func runC17(c *fw.Case) (o fw.Outcome) {
 				case 4: // IPv4-compatible and NAT64 prefixes
 					ip6 = net.IP(append(pick(r, []byte{0, 0, 0, 0, 0, 0, 0, 0, 0, 0, 0, 0}, []byte{0, 0x64, 0xff, 0x9b, 0, 0, 0, 0, 0, 0, 0, 0}), rbytes(r, 4)...))
 				}
-				v6 = ip6.String()
+				v6 = spell6(r, ip6)
+				if !net.ParseIP(v6).Equal(ip6) {
+					o.Inconcl("harness: spelling %q is not read back as %x", v6, []byte(ip6))
+					return
+				}
+				if len(v6) > 39 {
+					o.Count("ipv6_literals_longer_than_39_characters", 1)
+				}
 			}
 			if v4 != "" && v6 != "" && r.Intn(4) == 0 {
 				// dual stack whose IPv6 half is the IPv4-MAPPED form of the very same host, in the spellings net.IP prints and
@@ -344,6 +351,36 @@ func runC17(c *fw.Case) (o fw.Outcome) {
 }
 
 // c17Pair checks one (IPv4, IPv6) text pair through IPAddressToNgap and back.
+// spell6: the textual forms RFC 4291 2.2 gives an IPv6 address - what net.IP prints, all eight groups written out (lower
+// or upper case, with or without leading zeros) and form 3, whose last 32 bits are dotted decimal (up to 45 characters).
+func spell6(r *rand.Rand, ip net.IP) string {
+	ip = ip.To16()
+	g := func(i int, f string) string { return fmt.Sprintf(f, uint16(ip[2*i])<<8|uint16(ip[2*i+1])) }
+	join := func(n int, f string) string {
+		var p []string
+		for i := 0; i < n; i++ {
+			p = append(p, g(i, f))
+		}
+		return strings.Join(p, ":")
+	}
+	dotted := fmt.Sprintf("%d.%d.%d.%d", ip[12], ip[13], ip[14], ip[15])
+	switch r.Intn(8) {
+	case 0:
+		return join(8, "%04x")
+	case 1:
+		return join(8, "%04X")
+	case 2:
+		return join(8, "%x")
+	case 3:
+		return join(6, "%04x") + ":" + dotted
+	case 4:
+		return join(6, "%x") + ":" + dotted
+	case 5:
+		return join(6, "%04X") + ":" + dotted
+	}
+	return ip.String()
+}
+
 func c17Pair(o *fw.Outcome, v4, v6 string) bool {
 	o.Input = fmt.Sprintf("IPAddressToNgap(%q,%q)", v4, v6)
 	tla := ngapConvert.IPAddressToNgap(v4, v6)
